@@ -337,6 +337,7 @@ def run(ctx, res):
     accumulate_once(fg, res)
     spontaneous_aborts(S, fg, res)
     operand_discipline(S, ws, res)
+    per_party_tables(S, fg, res)
     # ------------------------------------------------------------------ (c) literal party indices
     n_idx = 0
     bad = 0
@@ -751,3 +752,73 @@ def operand_discipline(S, ws, res):
                 res.ok("C01.f", inst, where(b, tm[v]), "store at inst.out; reads `%s` at %s before the store%s" % (nm, " and ".join("xy"[:ar]), "; stored value computed from them" if name in ("Xor", "Not") else ""))
     res.need("C01.f", "walkers_with_register_tables", n_w, 4, "instruction walks that store into register-indexed tables (init_and_shares, garble x2, evaluate)")
     res.need("C01.f", "op_arm_table_pairs", n_arm, 15, "(Op arm, register table) pairs with a store at inst.out")
+
+
+def per_party_tables(S, fg, res):
+    """C01.g: a vector that is looked up by party number is filled by party number.  A local `Vec` that is read
+    with an index drawn from `0..p_max` (or p_eval / p_own / an output party) must get its entries through
+    `v[p] = ..` / `vec![x; p_max]` / a collect over all parties - not through `push`, whose positions depend on
+    the order in which parties are visited and on which of them are skipped (own party first, `continue` for the
+    own index): such a layout coincides with the party numbering only for one role assignment (evaluator = 0)."""
+    PARTY_FIELDS = {"p_max", "p_eval", "p_own", "p_out"}
+    n = 0
+    bad = 0
+    for k, b in engine_bodies(fg):
+        if not b.owner.startswith("polytune::mpc::protocol::"):
+            continue
+        pushes = {}     # vector root local -> [block]
+        reads = {}      # vector root local -> [block] party-indexed reads
+        for bi, t in b.calls():
+            if bi not in b.live_blocks():
+                continue
+            names = callee_names(t)
+            tail = names[-1].rsplit("::", 1)[-1] if names else ""
+            if tail == "push" and len(t["args"]) == 2 and t["args"][0]["k"] != "const" and "alloc::vec::Vec<" in t["args"][0]["p"]["ty"]:
+                rl = root_local(b, t["args"][0])
+                if rl is not None and b.locals[rl]["name"]:
+                    pushes.setdefault(rl, []).append(bi)
+            if tail in ("get", "index", "get_mut", "index_mut") and len(t["args"]) == 2 and t["args"][0]["k"] != "const" and t["args"][1]["k"] != "const":
+                ity = t["args"][1]["p"]["ty"]
+                if ity != "usize":
+                    continue
+                rl = root_local(b, t["args"][0])
+                if rl is None or not b.locals[rl]["name"]:
+                    continue
+                si = SliceInfo(fg, fg.operand_nodes(k, t["args"][1]), edge_ok=lambda e: e.kind in ("copy", "ref", "cast", "base2field", "field2whole", "upvar", "closarg", "agg") or (e.kind == "call" and (e.info or {}).get("names") and e.info["names"][-1].rsplit("::", 1)[-1] in ("next", "into_iter", "iter", "filter", "copied", "cloned", "deref", "enumerate", "map")))
+                if si.field_names(CTX) & PARTY_FIELDS and not (si.field_names(CTX) - PARTY_FIELDS - {"circ"}):
+                    reads.setdefault(rl, []).append(bi)
+        for rl, rb in reads.items():
+            if rl not in pushes:
+                continue
+            n += 1
+            nm = b.locals[rl]["name"]
+            # every push must sit in a loop over all parties that cannot skip it
+            okp = True
+            why = ""
+            for pb in pushes[rl]:
+                lp = S.inner_loop(b, pb)
+                if lp is None:
+                    okp = False
+                    why = "an entry is pushed outside any loop over the parties"
+                    break
+                h, body = lp
+                # does an iteration reach the header again without passing the push?
+                skip = False
+                for sc in b.succ()[h]:
+                    if sc in body and h in b.reachable_from(sc, frozenset([pb])) and sc != pb:
+                        r_ = b.reachable_from(sc, frozenset([pb]))
+                        if h in r_:
+                            skip = True
+                if skip:
+                    okp = False
+                    why = "an iteration of the loop can skip the push (`continue` / filter for one party)"
+                    break
+            if okp:
+                res.ok("C01.g", "%s|%s" % (b.owner.rsplit("::", 1)[-1], nm), where(b, rb[0]), "read by party number; filled by one push per iteration of a loop that visits every party")
+            else:
+                bad += 1
+                res.bad("C01.g", "%s|%s" % (b.owner.rsplit("::", 1)[-1], nm), "`%s` is looked up by party number but %s: entry k is then the k-th party visited, which is party k only for one role assignment (e.g. evaluator 0)" % (nm, why), where(b, pushes[rl][0]),
+                        key="C01.g|%s|%s" % (b.owner.rsplit("::", 1)[-1], nm))
+    res.count("pushed_vectors_read_by_party_number", n)
+    if not bad:
+        res.ok("C01.g", "engine", "", "%d vector(s) filled with push and read by party number: each filled once per party in party order" % n)
